@@ -1157,8 +1157,9 @@ fn oracle_c14(t: &WorldTrace, obs: &[Obs], stats: &mut Stats) -> Vec<Violation> 
         let positions = |v: &Variant, o: &Obs| -> Option<Vec<(String, String, Option<(usize, usize)>)>> {
             let mut p = vec![];
             for d in &o.diags {
-                let name = crate::world::ws_relative(&d.primary.file).to_string();
-                let pos = match v.files.iter().find(|f| f.name == name) {
+                let found = crate::world::find_file(&v.files, &d.primary.file);
+                let name = found.map(|f| f.name.clone()).unwrap_or_else(|| crate::world::ws_relative(&d.primary.file).to_string());
+                let pos = match found {
                     Some(f) => {
                         let text = file_text(&t.world, f);
                         // offsets are comparable only if the program saw a text of the same length
